@@ -196,7 +196,7 @@ def guard_functions(fx):
     return sorted(out)
 
 
-def compare(ctx, rid, paths, table, what, fields=ALL_FIELDS):
+def compare(ctx, rid, paths, table, what, fields=ALL_FIELDS, rowsel=None):
     """Compare current decision tables of `paths` with the frozen table; one obligation per function plus one per differing row."""
     fx = ctx.facts()
     n = 0
@@ -210,12 +210,19 @@ def compare(ctx, rid, paths, table, what, fields=ALL_FIELDS):
             ctx.ob(rid, 'fn-unlisted:' + path, False, 'function constructs errors but has no reviewed decision table', fn.where())
             continue
         cur = decision_table(ctx, fn, frozen.get('max_visits', 1))
+        frozen_rows = frozen['rows']
+        if rowsel is not None:
+            # the property depends on some arms of this function only: compare those rows
+            cur = [r for r in cur if rowsel(path, r)]
+            frozen_rows = [r for r in frozen_rows if rowsel(path, r)]
+            if not frozen_rows:
+                ctx.ob(rid, 'rows-selected:' + path, False, 'row selection matches reviewed rows', fn.where(), 'no reviewed row selected')
         n += len(cur)
         a = {}
         for r in cur:
             a[row_key(r, fields)] = a.get(row_key(r, fields), 0) + 1
         b = {}
-        for r in frozen['rows']:
+        for r in frozen_rows:
             b[row_key(r, fields)] = b.get(row_key(r, fields), 0) + 1
         missing = [json.loads(k) for k in b if a.get(k, 0) < b[k]]
         extra = [json.loads(k) for k in a if b.get(k, 0) < a[k]]
